@@ -27,3 +27,24 @@ package dns
 //@ func (*NSEC3).Match [C17]
 //@   exit match: ret0 == (callres("IsSubDomain") && ownerHash == nameHash)
 //@   pure
+
+// ---- key tag (RFC 4034 Appendix B) -----------------------------------------------------------------------------
+// ktsum(w, n): the running sum over the first n octets of the DNSKEY RDATA: octets at even positions count
+// 256-fold.  The tag is (ac + ((ac >> 16) & 0xFFFF)) & 0xFFFF.
+//@ spec ktsum(w seq, n int) int = n <= 0 ? 0 : ktsum(w, n - 1) + (((n - 1) % 2 == 1) ? w[n-1] : w[n-1] * 256) decreases n
+//@ spec ktfold(ac int) int = (ac + (ac / 65536) % 65536) % 65536
+
+//@ func packKeyWire [C17 C10]
+//@   requires dw != nil
+//@   ensures ok:  ret1 == nil ==> 4 <= ret0 && ret0 <= len(msg)
+//@   ensures hdr: ret1 == nil ==> msg[0] == dw.Flags / 256 && msg[1] == dw.Flags % 256 && msg[2] == dw.Protocol && msg[3] == dw.Algorithm
+//@   ensures fail: ret1 != nil ==> 0 <= ret0 && ret0 <= len(msg)
+
+//@ func (*DNSKEY).KeyTag [C17]
+//@   exit tag: callres("packKeyWire", 1) == nil ==> ret0 == ktfold(ktsum(wire, len(wire)))
+//@   loop 1 invariant 0 <= keytag && keytag == ktsum(wire, rangeindex + 1) && keytag <= 65535 * (rangeindex + 1) && rangeindex + 1 <= len(wire)
+
+// ---- signature validity period (RFC 4034 section 3.1.5, RFC 1982 serial arithmetic) ------------------------------
+//@ func (*RRSIG).ValidityPeriod [C17]
+//@   ensures window: !timezero(t.wall, t.ext) && 0 - 2147483648 < rr.Inception - unixsec(t.wall, t.ext) && rr.Inception - unixsec(t.wall, t.ext) < 2147483648 && 0 - 2147483648 < rr.Expiration - unixsec(t.wall, t.ext) && rr.Expiration - unixsec(t.wall, t.ext) < 2147483648 ==> ret0 == (rr.Inception <= unixsec(t.wall, t.ext) && unixsec(t.wall, t.ext) <= rr.Expiration)
+//@   pure
